@@ -114,6 +114,8 @@ type worldC struct {
 	addrs []common.Address
 	// keyperConfigIndex / eon used in the database
 	kci int64
+	// accessReannounce: access nodes see the keyper set announced twice, first with other members
+	accessReannounce bool
 	eon int64
 	tasks int // running harness task goroutines
 	// provision, if set, replaces the default eon provisioning of addNode
@@ -145,7 +147,7 @@ func sqlKey(req *pgsim.Request) string {
 
 // newWorldC provisions n member nodes (+ optional extra non-member nodes).
 func newWorldC(r *simkit.Run, n, t int, netCfg simnet.Config) *worldC {
-	w := &worldC{r: r, n: n, t: t, kci: 1, eon: 1}
+	w := &worldC{r: r, n: n, t: t, kci: 1, eon: 7} // the eon number differs from the keyper config index (retried key generations)
 	w.s = simkit.NewSched(r)
 	w.net = simnet.New(w.s, netCfg)
 	var err error
@@ -569,6 +571,16 @@ func (w *worldC) addAccessNode(name string) *cNode {
 	var keypers []string
 	for _, a := range w.addrs {
 		keypers = append(keypers, shdb.EncodeAddress(a))
+	}
+	if w.accessReannounce {
+		// the chain sync announced this keyper set before with other members (the announcing
+		// transaction was replaced by a reorg); the later announcement is the one that counts
+		var old []string
+		for i := range w.addrs {
+			old = append(old, shdb.EncodeAddress(simtm.DetKey(fmt.Sprintf("replaced-member-%d", i)).Addr))
+		}
+		st.AddKeyperSet(uint64(w.kci), &obskeyper.KeyperSet{KeyperConfigIndex: w.kci, ActivationBlockNumber: 0, Keypers: old, Threshold: int32(w.t)})
+		w.r.Probe("access-node-keyper-set-reannounced")
 	}
 	st.AddKeyperSet(uint64(w.kci), &obskeyper.KeyperSet{KeyperConfigIndex: w.kci, ActivationBlockNumber: 0, Keypers: keypers, Threshold: int32(w.t)})
 	nd.msg = p2p.VerifNewMessaging()
